@@ -308,6 +308,115 @@ Theorem C15_lc_se_handler_table : forall v t, view_ok v -> v_base v < lc_table_p
 Proof. exact DirsProofs.lc_se_handler_table_correct. Qed.
 Print Assumptions C15_lc_se_handler_table.
 
+(* ================================================================ SHAPE: which bytes are decoded how
+   (audit: C15_security, C15_dir_entry, C15_function_bytes, C15_unwind_info compare the decoder over slice with the same
+   reading over slice_spec and say where the bytes lie, not how they are decoded.)  Spec/DirShape.v states the decoded
+   values over the bytes of the view at the literal offsets of the PE/COFF specification:
+     word_at g o = g o + 256 g(o+1),  dword_at g o = the same over four bytes,  bytes_at g o n = the n bytes from o.
+   The accessors that read fields through the returned references (Model/DirsFields.v: sec_length, sec_revision,
+   certificate_bytes, entry_fields = CodeView::format / age / image fields, Dbg::image() fields) are extracted and printed by
+   the driver; they used to be decoded inside ocaml/dirs_driver.ml. *)
+From PV.Model Require Import DirsFields.
+From PV.Spec Require Import DirShape.
+From PV.Proofs Require DirsShape.
+
+(* security: a successful try_from returns exactly the Size bytes at FILE OFFSET VirtualAddress; dwLength is the dword at 0,
+   wRevision the word at 4, wCertificateType the word at 6, and the certificate is the Size-8 bytes from offset 8 *)
+Theorem C15_security_fields : forall v va size r, security_try_from v (Some (va, size)) = Ok r ->
+  v_file v = true /\ r = {| r_off := va; r_len := size |} /\ 8 <= size /\ va + size <= v_len v /\
+  sec_length (v_get v) r = dword_at (v_get v) va /\
+  sec_revision (v_get v) r = word_at (v_get v) (va + 4) /\
+  certificate_type (v_get v) r = word_at (v_get v) (va + 6) /\
+  certificate_bytes (v_get v) r = Ok (bytes_at (v_get v) (va + 8) (N.to_nat (size - 8))).
+Proof. exact DirsShape.security_fields. Qed.
+Print Assumptions C15_security_fields.
+
+(* debug entry fields: NB10 = the four signature bytes, Offset at 4, TimeDateStamp at 8, Age at 12;
+   RSDS = the four signature bytes, the 16 GUID bytes at 4, Age at 20; MISC = DataType at 0, Length at 4, Unicode = byte 8 *)
+Theorem C15_entry_fields : forall g e,
+  entry_fields g e =
+    match e with
+    | ECv20 i _ => FCv20 [g i; g (i + 1); g (i + 2); g (i + 3)] (dword_at g (i + 4)) (dword_at g (i + 8)) (dword_at g (i + 12))
+    | ECv70 i _ => FCv70 [g i; g (i + 1); g (i + 2); g (i + 3)] (bytes_at g (i + 4) 16) (dword_at g (i + 20))
+    | EDbg i => FMisc (dword_at g i) (dword_at g (i + 4)) (g (i + 8))
+    | _ => FOther
+    end.
+Proof. exact DirsShape.entry_fields_is_shape. Qed.
+Print Assumptions C15_entry_fields.
+
+(* what a successfully decoded debug entry IS ([entry_shape] of Spec/DirShape.v, o = PointerToRawData for a file view and
+   AddressOfRawData for a mapped view): the SizeOfData bytes at o lie inside the buffer;
+   Type 2 with bytes 'N' 'B' '1' '0' at o -> Cv20 at o, at least 16 bytes, 4-aligned, fields as above, path = the bytes from o+16 up to
+     and including the FIRST NUL, inside SizeOfData-16 bytes;  Type 2 with 'R' 'S' 'D' 'S' -> Cv70, at least 24 bytes, path from o+24;
+   Type 4 -> MISC at o, at least 12 bytes, 4-aligned;  Type 13 -> the 4*(SizeOfData/4) bytes at o as dwords, 4-aligned;
+   any other Type -> the raw payload (None when it leaves the buffer) *)
+Theorem C15_dir_entry_shape : forall v d e, bytes_lt (v_get v) -> ddir_ok d -> dir_entry v d = Ok e -> entry_shape v d e.
+Proof. exact DirsShape.dir_entry_shape. Qed.
+Print Assumptions C15_dir_entry_shape.
+
+(* and which bytes give which error *)
+Theorem C15_dir_entry_errors : forall v d, bytes_lt (v_get v) -> ddir_ok d ->
+  let g := v_get v in let o := payload_off v d in
+  let typed := dd_type d = 2 \/ dd_type d = 4 \/ dd_type d = 13 in
+  let min := if dd_type d =? 2 then 16 else if dd_type d =? 4 then 12 else 4 in
+  (typed -> v_len v < o + dd_size d -> dir_entry v d = Err EBounds) /\
+  (typed -> o + dd_size d <= v_len v -> dd_size d < min -> dir_entry v d = Err EBounds) /\
+  (typed -> o + dd_size d <= v_len v -> min <= dd_size d -> (v_addr v + o) mod 4 <> 0 -> dir_entry v d = Err EMisaligned) /\
+  (dd_type d = 2 -> o + dd_size d <= v_len v -> 16 <= dd_size d -> (v_addr v + o) mod 4 = 0 ->
+     (bytes_at g o 4 <> [78; 66; 49; 48] -> bytes_at g o 4 <> [82; 83; 68; 83] -> dir_entry v d = Err EBadMagic) /\
+     (bytes_at g o 4 = [78; 66; 49; 48] -> (forall k, k < dd_size d - 16 -> g (o + 16 + k) <> 0) -> dir_entry v d = Err EEncoding) /\
+     (bytes_at g o 4 = [82; 83; 68; 83] -> dd_size d < 24 -> dir_entry v d = Err EBounds) /\
+     (bytes_at g o 4 = [82; 83; 68; 83] -> 24 <= dd_size d -> (forall k, k < dd_size d - 24 -> g (o + 24 + k) <> 0) -> dir_entry v d = Err EEncoding)).
+Proof. exact DirsShape.dir_entry_errors. Qed.
+Print Assumptions C15_dir_entry_errors.
+
+(* UNWIND_INFO fields: Version = byte 0 mod 8, Flags = byte 0 / 8, SizeOfProlog = byte 1, CountOfCodes = byte 2,
+   FrameRegister = byte 3 mod 16, FrameOffset = byte 3 / 16, codes = the 2*CountOfCodes bytes from offset 4 *)
+Theorem C15_unwind_fields : forall g r,
+  {| us_version := uw_version g r; us_flags := uw_flags g r; us_prolog := uw_size_of_prolog g r; us_count := uw_count g r;
+     us_reg := uw_frame_register g r; us_offset := uw_frame_offset g r; us_codes := uw_codes g r |}
+  = {| us_version := g (r_off r) mod 8; us_flags := g (r_off r) / 8; us_prolog := g (r_off r + 1); us_count := g (r_off r + 2);
+       us_reg := g (r_off r + 3) mod 16; us_offset := g (r_off r + 3) / 16;
+       us_codes := {| r_off := r_off r + 4; r_len := 2 * g (r_off r + 2) |} |}.
+Proof. exact DirsShape.unwind_fields. Qed.
+Print Assumptions C15_unwind_fields.
+
+(* unwind_info over the bytes: the header is what slicing yields at UnwindData (4 bytes, alignment 1); the result is its first
+   4 + 2*CountOfCodes bytes, Bounds when they do not fit in that slice; slicing errors propagate *)
+Theorem C15_unwind_info_closed : forall v f, bytes_lt (v_get v) ->
+  unwind_info v f =
+    match slice v (rf_unwind f) 4 1 with
+    | Ok b => if r_len b <? 4 + 2 * v_get v (r_off b + 2) then Err EBounds
+              else Ok {| r_off := r_off b; r_len := 4 + 2 * v_get v (r_off b + 2) |}
+    | Err e => Err e
+    | Fault x => Fault x
+    end.
+Proof. exact DirsShape.unwind_info_closed. Qed.
+Print Assumptions C15_unwind_info_closed.
+
+(* function bytes: Overflow when End < Begin, else the End-Begin bytes that slicing yields at Begin (alignment 1) *)
+Theorem C15_function_bytes_closed : forall v f, rf_end f < W64 ->
+  function_bytes v f =
+    if rf_end f <? rf_begin f then Err EOverflow
+    else match slice v (rf_begin f) (rf_end f - rf_begin f) 1 with
+         | Ok b => Ok {| r_off := r_off b; r_len := rf_end f - rf_begin f |}
+         | Err e => Err e
+         | Fault x => Fault x
+         end.
+Proof. exact DirsShape.function_bytes_closed. Qed.
+Print Assumptions C15_function_bytes_closed.
+
+Example C15_shape_nonvacuous :
+  dir_entry DirsShape.ex_cv_view DirsShape.ex_cv_dir = Ok (ECv70 32 {| r_off := 56; r_len := 6 |}) /\
+  entry_fields (v_get DirsShape.ex_cv_view) (ECv70 32 {| r_off := 56; r_len := 6 |})
+  = FCv70 [82; 83; 68; 83] [1;2;3;4;5;6;7;8;9;10;11;12;13;14;15;16] 7 /\
+  entry_fields_shape (v_get DirsShape.ex_cv_view) (ECv70 32 {| r_off := 56; r_len := 6 |})
+  = FCv70 [82; 83; 68; 83] [1;2;3;4;5;6;7;8;9;10;11;12;13;14;15;16] 7 /\
+  security_try_from DirsShape.ex_cv_view (Some (32, 32)) = Ok {| r_off := 32; r_len := 32 |} /\
+  sec_length (v_get DirsShape.ex_cv_view) {| r_off := 32; r_len := 32 |} = 1396986706 /\
+  certificate_type (v_get DirsShape.ex_cv_view) {| r_off := 32; r_len := 32 |} = 1027.
+Proof. vm_compute. repeat split; reflexivity. Qed.
+
 (* ================================================================ no modelled function faults
    (no panic, no out-of-bounds or misaligned unchecked access, no fuel exhaustion) *)
 Theorem C15_no_fault : forall v dd t pc f d r image,
